@@ -994,14 +994,25 @@ func (s *UtxoSweeper) markInputsPublishFailed(set InputSet,
 		// Update the input's state.
 		pi.state = PublishFailed
 
+		// A failure can be reported without a fee rate (e.g. when the
+		// sweep tx could not be created at all). Never lower a
+		// starting fee rate that has already been recorded for the
+		// input, otherwise the next attempt would restart below a
+		// fee rate that has been offered before.
+		startingFeeRate := feeRate
+		cur := pi.params.StartingFeeRate.UnwrapOr(0)
+		if cur > startingFeeRate {
+			startingFeeRate = cur
+		}
+
 		log.Debugf("Input(%v): updating params: starting fee rate "+
 			"[%v -> %v]", op, pi.params.StartingFeeRate,
-			feeRate)
+			startingFeeRate)
 
 		// Update the input using the fee rate specified from the
 		// BumpResult, which should be the starting fee rate to use for
 		// the next sweeping attempt.
-		pi.params.StartingFeeRate = fn.Some(feeRate)
+		pi.params.StartingFeeRate = fn.Some(startingFeeRate)
 	}
 }
 
